@@ -157,7 +157,7 @@ func runRound(rd Round, dir string) M {
 	sc := &system.Config{Url: "http://r", CoroutineMaxSize: rd.Pool, SubmissionBatchSize: rd.SubBatch, CompletionBatchSize: rd.CplBatch,
 		PromiseBatchSize: 2, ScheduleBatchSize: 2, TaskBatchSize: 2, TaskEnqueueDelay: 5 * time.Millisecond, SignalTimeout: 2 * time.Millisecond}
 	if rd.Idle {
-		sc.SignalTimeout = 150 * time.Millisecond
+		sc.SignalTimeout = 400 * time.Millisecond
 	}
 	s := system.New(ap, a, sc, reg)
 	s.AddOnRequest(t_api.ReadPromise, coroutines.ReadPromise)
@@ -230,6 +230,12 @@ func runRound(rd Round, dir string) M {
 				}
 				if rd.Idle {
 					time.Sleep(time.Duration(10+g.R.Intn(15)) * time.Millisecond) // let the loop go to sleep
+					if k == rd.PerClient-1 {
+						// the last request arrives long after the loop's last wake-up (but before its timer is due) and shutdown is
+						// requested right behind it: whichever signal wakes the loop, the request is handled at the clock of THAT moment
+						time.Sleep(time.Duration(150+g.R.Intn(200)) * time.Millisecond)
+						rq = &t_api.Request{Kind: t_api.CreatePromise, Tags: rq.Tags, CreatePromise: &t_api.CreatePromiseRequest{Id: "last." + tid, Timeout: time.Now().UnixMilli() + 60000, Tags: map[string]string{}}}
+					}
 				}
 				mu.Lock()
 				submitted++
